@@ -31,7 +31,15 @@ RULE = ("a runner configuration = 0-3 unpacked parameters of lengths 1-5 (lists 
         "are reconfigured between simulate() calls.  In situ: the repository's "
         "own AWGN simulator class (apps/awgn_modulators) runs unmodified with six "
         "modulators; its two extension points are wrapped to record events and "
-        "an offline checker requires the documented loop and exact stored sums.")
+        "an offline checker requires the documented loop and exact stored sums.  "
+        "Files generator: runners with a results file name are driven through "
+        "simulate(i) / simulate() sequences with partial-file deletion on and "
+        "off (rep_max also around the 500-repetition save period); the model "
+        "tracks which combinations have a complete partial file. A quarter of "
+        "the runners have their first simulate() aborted by an exception in "
+        "user code and are simulated again; reconfiguration also goes through "
+        "params[name] = values; confidence-interval lookups are compared with "
+        "the matching combinations. ")
 ASSUMPTIONS = ["the do-while behaviour (first repetition unconditional) is the "
                "documented one", "serial simulate() only (ipyparallel absent)"]
 
